@@ -352,6 +352,8 @@ def main():
                        "the time-dependent class keeps Km/Lm/Ld as plain attributes (transformed with the object on context exit only): operator-form TD tensors are "
                        "compared in the basis the code uses them in"]
     chk.prove()
+    import translate
+    translate.static_tie(cm, chk, PID, cm.REPO)      # second, static tie: propagator kernels regenerated from the current source
     aitems, ameta, ditems, dmeta = [], [], [], []
     if args.replay:
         rep = json.load(open(args.replay))
